@@ -159,6 +159,29 @@ func (e *env) hdrIDs(hdrs []wire.BlockHeader) string {
 	return e.ids(hs)
 }
 
+// viewOf reads the active chain through Height()/NodeByHeight (not the internal slice)
+func viewOf(t *blockchain.VerifTree) []int {
+	h := int(t.ViewHeight())
+	v := make([]int, 0, h+1)
+	for i := 0; i <= h; i++ {
+		v = append(v, t.NodeByHeight(int32(i)))
+	}
+	return v
+}
+
+// tipStatus maps the exported TipStatus constants to the model's codes (not their numeric values)
+func tipStatus(s blockchain.TipStatus) int {
+	switch s {
+	case blockchain.StatusActive:
+		return 1
+	case blockchain.StatusInvalid:
+		return 2
+	case blockchain.StatusValidFork:
+		return 3
+	}
+	return 0
+}
+
 func viewDigest(v []int) string {
 	if len(v) == 0 {
 		return "0/-/0"
@@ -176,9 +199,9 @@ func (e *env) op(tok string) string {
 	switch f[0] {
 	case "tip":
 		t.SetTip(oid(f[1]))
-		return viewDigest(t.View())
+		return viewDigest(viewOf(t))
 	case "view":
-		v := t.View()
+		v := viewOf(t)
 		out := make([]string, len(v))
 		for i, id := range v {
 			out[i] = pid(id)
@@ -250,7 +273,7 @@ func (e *env) op(tok string) string {
 			if ct.Height != t.HeightOf(t.IDOf(&ct.BlockHash)) {
 				return "tip-height-differs"
 			}
-			ts[i] = fmt.Sprintf("%s.%d.%d", pid(t.IDOf(&ct.BlockHash)), ct.Status, ct.BranchLen)
+			ts[i] = fmt.Sprintf("%s.%d.%d", pid(t.IDOf(&ct.BlockHash)), tipStatus(ct.Status), ct.BranchLen)
 		}
 		return strings.Join(ts, ",")
 	case "nd":
@@ -630,7 +653,7 @@ func queryOps(r *core.Rand, t *tree, tip int, k int) []string {
 			if r.Chance(1, 3) {
 				mx = r.Intn(th + 2)
 			}
-			kind := []string{"inv", "hdr", "linv"}[r.Intn(3)]
+			kind := []string{"inv", "hdr", "inv"}[r.Intn(3)]
 			ops = append(ops, fmt.Sprintf("%s:%s:%d:%d", kind, joinInts(loc), stop, mx))
 		case 11:
 			s := edgeHeight(r, th)
@@ -756,7 +779,7 @@ func (P) Generate(g *core.Gen) {
 			loc := randLocator(r, t, tip)
 			for stop := 0; stop <= t.n(); stop++ {
 				for mx := 0; mx <= th+1; mx++ {
-					ops = append(ops, fmt.Sprintf("%s:%s:%d:%d", []string{"inv", "hdr", "linv"}[(stop+mx)%3], joinInts(loc), stop, mx))
+					ops = append(ops, fmt.Sprintf("%s:%s:%d:%d", []string{"inv", "hdr", "inv"}[(stop+mx)%3], joinInts(loc), stop, mx))
 				}
 			}
 		}
